@@ -45,7 +45,7 @@ def _pkg_env(pkg_key):
     return envs.ENVS[pkg_key]()
 
 
-def run_concrete(job, model, stop_on_failure=True):
+def run_concrete(job, model, stop_on_failure=True, strict_uf=False):
     """Run the harness on the real code with the model's values.
     Returns (status, failures): status in ok|failed|mismatch|error."""
     fn = _resolve(job.harness)
@@ -53,6 +53,7 @@ def run_concrete(job, model, stop_on_failure=True):
     pkg = envs.real_package(job.pkg_key, job.block)
     Wc = world.ConcreteWorld(model, pkg)
     Wc.stop_on_failure = stop_on_failure
+    Wc.strict_uf = strict_uf
     old = world.W
     world.W = Wc
     import warnings
@@ -160,7 +161,7 @@ def run_job(args):
     res['validated'], res['validation_problems'] = 0, []
     if not eng.findings:
         for m in path_models:
-            status, fails = run_concrete(job, m)
+            status, fails = run_concrete(job, m, strict_uf=True)
             if status == 'ok':
                 res['validated'] += 1
             else:
